@@ -1159,6 +1159,46 @@ impl<const N: usize> IoEx<N> {
                 (h.finish(), e, s, o, p)
             });
             let cmp_allocs = crate::alloc::take_op_allocs();
+            // "for any capacity": once per run, the same trait impls plus clone / clone_from on a
+            // wrapped buffer larger than a page (size thresholds; the buffer itself is built
+            // outside the window, its layout derived from the model so that it is a function of
+            // the schedule only)
+            if i == 0 && r2.is_ok() && cmp_allocs == 0 {
+                const BIG: usize = 8192;
+                let mut big = CircularBuffer::<BIG, u8>::boxed();
+                let fill = BIG - 1 - (want.len() * 37) % 61;
+                let shift = 1 + (want.len() * 101 + N * 7) % (BIG / 2);
+                for _ in 0..shift {
+                    big.push_back(0);
+                    big.pop_front();
+                }
+                for k in 0..fill {
+                    big.push_back((k % 251) as u8);
+                }
+                let mut dst = CircularBuffer::<BIG, u8>::boxed();
+                dst.push_back(1);
+                let bigr: &CircularBuffer<BIG, u8> = &big;
+                let dstr: &mut CircularBuffer<BIG, u8> = &mut dst;
+                let _ = crate::alloc::take_op_allocs();
+                let r3 = window(|| {
+                    let cl = bigr.clone();
+                    let same = cl == *bigr;
+                    dstr.clone_from(bigr);
+                    let mut h = crate::elem::RecHasher::new();
+                    bigr.hash(&mut h);
+                    same && *dstr == *bigr && (&*dstr).cmp(bigr) == std::cmp::Ordering::Equal && cl.len() == fill
+                });
+                let big_allocs = crate::alloc::take_op_allocs();
+                match r3 {
+                    Ok(true) => {
+                        if big_allocs > 0 {
+                            self.fail(cls::ALLOC, format!("clone / clone_from / hash / == / cmp of an {BIG}-byte buffer (wrapped, len {fill}) performed {big_allocs} heap allocation(s) of its own"));
+                        }
+                    }
+                    Ok(false) => self.fail(cls::CMP | cls::CTOR, format!("clone / clone_from of an {BIG}-byte wrapped buffer (len {fill}, front at {shift}) is not equal to its source")),
+                    Err(_) => self.fail(cls::CMP | cls::PANIC_SPEC, format!("clone / comparison of an {BIG}-byte buffer panicked")),
+                }
+            }
             if r2.is_ok() && cmp_allocs > 0 {
                 self.fail(cls::ALLOC, format!("hash / == / cmp of a byte buffer (start={} size={} N={}) performed {} heap allocation(s) of its own", self.buf.verif_layout().0, self.buf.len(), N, cmp_allocs));
             }
